@@ -43,7 +43,7 @@ class Worker:
         self.p.stdin.flush()
         line = self.p.stdout.readline()
         if not line:
-            raise HarnessError("replay worker died on %r" % (req,))
+            raise HarnessError("replay worker died on %s" % (json.dumps(req)[:300],))
         return json.loads(line)
 
     def close(self):
